@@ -333,3 +333,97 @@ where
     }
     report
 }
+
+// ---------------------------------------------------------------------------------------------
+// Report <-> JSON (used between supervised worker processes and their parent)
+
+fn violation_to_json(v: &Violation) -> J {
+    J::obj()
+        .with("prop", v.prop.as_str())
+        .with("sig", v.sig.as_str())
+        .with("what", v.what.as_str())
+        .with("replay", v.replay.clone())
+}
+
+fn violation_from_json(j: &J) -> Option<Violation> {
+    Some(Violation {
+        prop: j.get("prop")?.as_str()?.to_owned(),
+        sig: j.get("sig")?.as_str()?.to_owned(),
+        what: j.get("what")?.as_str()?.to_owned(),
+        replay: j.get("replay")?.clone(),
+    })
+}
+
+impl Report {
+    pub fn to_json(&self) -> J {
+        let mut counters = J::obj();
+        for (k, v) in &self.counters {
+            counters.set(k, *v);
+        }
+        let mut max = J::obj();
+        for (k, v) in &self.max {
+            max.set(k, *v);
+        }
+        J::obj()
+            .with("evaluations", self.evaluations)
+            .with("distinct_extra", self.distinct_extra)
+            .with(
+                "distinct",
+                J::Arr(self.distinct.iter().map(|s| J::s(s.as_str())).collect()),
+            )
+            .with("counters", counters)
+            .with("max", max)
+            .with("samples", J::Arr(self.samples.clone()))
+            .with(
+                "violations",
+                J::Arr(self.violations.iter().map(violation_to_json).collect()),
+            )
+            .with("cross", J::Arr(self.cross.iter().map(violation_to_json).collect()))
+            .with(
+                "inconclusive",
+                J::Arr(self.inconclusive.iter().map(|s| J::s(s.as_str())).collect()),
+            )
+            .with(
+                "panics",
+                J::Arr(
+                    self.panics
+                        .iter()
+                        .map(|(l, m)| J::Arr(vec![J::s(l.as_str()), J::s(m.as_str())]))
+                        .collect(),
+                ),
+            )
+    }
+
+    pub fn from_json(j: &J) -> Option<Report> {
+        let mut r = Report {
+            evaluations: j.get("evaluations")?.as_i64()? as u64,
+            distinct_extra: j.get("distinct_extra")?.as_i64()? as u64,
+            ..Default::default()
+        };
+        for d in j.get("distinct")?.as_arr()? {
+            r.distinct.insert(d.as_str()?.to_owned());
+        }
+        for (k, v) in j.get("counters")?.as_obj()? {
+            r.counters.insert(k.clone(), v.as_i64()? as u64);
+        }
+        for (k, v) in j.get("max")?.as_obj()? {
+            r.max.insert(k.clone(), v.as_i64()? as u64);
+        }
+        r.samples = j.get("samples")?.as_arr()?.to_vec();
+        for v in j.get("violations")?.as_arr()? {
+            r.violations.push(violation_from_json(v)?);
+        }
+        for v in j.get("cross")?.as_arr()? {
+            r.cross.push(violation_from_json(v)?);
+        }
+        for s in j.get("inconclusive")?.as_arr()? {
+            r.inconclusive.push(s.as_str()?.to_owned());
+        }
+        for p in j.get("panics")?.as_arr()? {
+            let p = p.as_arr()?;
+            r.panics
+                .push((p.first()?.as_str()?.to_owned(), p.get(1)?.as_str()?.to_owned()));
+        }
+        Some(r)
+    }
+}
